@@ -6,10 +6,11 @@ CONFIG = {
     "sources": ["VProps/C03.lean", "VProps/C04.lean", "VProps/C05.lean", "VModel/EventParse.lean", "VModel/EventSpec.lean",
                 "VModel/Redact.lean", "VModel/Hash.lean", "VModel/EventBuild.lean", "VProofs/EventParse.lean", "VProofs/RedactCongr.lean",
                 "VProofs/RedactLookup.lean", "VProofs/RedactCore.lean", "VProofs/RedactMaps.lean", "VProofs/RedactMain.lean",
-                "VProofs/RedactExact.lean", "VProofs/EventBuildRoundtrip.lean"],
+                "VProofs/RedactExact.lean", "VProofs/EventBuildRoundtrip.lean", "VProofs/EventTamper.lean"],
     "theorems": [
         "V.C03.tables_ok", "V.C03.referenceID_ignores_unsigned", "V.C03.eventID_ignores_unsigned",
         "V.C03.referenceID_ignores_signatures", "V.C03.eventID_ignores_signatures", "V.C03.eventID_redact_invariant",
+        "V.C03.eventID_redact_invariant_received",
         "V.C03.eventID_injective", "V.C03.hash_injective", "V.C03.eventID_alphabet", "V.C03.v12_create_roomID",
         "V.C03.v12_auth_first", "V.C03.reparse_same_partial", "V.C03.build_checked_partial", "V.C03.build_roundtrip",
     ],
@@ -51,8 +52,14 @@ CONFIG = {
         "hash_injective; extracting the hashes member from equal canonical encodings is not formalised (C01.encodeCanon_injective "
         "gives equality of the sorted values)",
         "eventID_ignores_unsigned / _signatures at PDU level are stated for events without duplicate top-level keys (SetUnsigned / "
-        "Sign re-marshal through a map); eventID_redact_invariant for redactions without an event_id member (always the case for "
-        "received events since commit c0dfbd8)",
+        "Sign re-marshal through a map)",
+        "eventID_redact_invariant: hypothesis 'the event's JSON has no member with the exact key event_id' (a condition on the event, no "
+        "longer on its redaction: redaction matches keys exactly since the redactEventJSON repair, so a case variant such as Event_id cannot "
+        "put an event_id into the redacted JSON). Derived, not assumed, for every event received through NewEventFromUntrustedJSON in a "
+        "hashed-ID format (eventID_redact_invariant_received, via C04.accepted_no_event_id: the key is stripped on receipt) and true of every "
+        "Build output of these formats (Build writes no event_id). What remains outside: TRUSTED JSON (NewEventFromTrustedJSON, ...WithEventID, "
+        "headered) that carries an event_id member in a hashed-ID format - the constructors take the stored ID from that member (struct "
+        "decoding, case variants included) or from the argument, Redact() re-reads the exact member from the redacted JSON, and the two can differ",
         "texts with ill-formed Unicode or duplicate keys are skipped by the driver",
     ],
 }
